@@ -4,7 +4,8 @@ from lib.facts import CallGraph
 from lib.mirq import Slice, calls_matching, edge_dominates, result_exits
 from lib.mirfwd import (bool_switches, callee_of, cycle_members, derives_from_call, forwarded_sites, helper_frames, ip_roots, result_checked, result_edges)
 
-TECHNIQUE = "MIR CFG path rules (dominance, must-pass-through pairing, edge dominance) + operand provenance + who-may-call on the include expander"
+TECHNIQUE = ("MIR CFG path rules (dominance, must-pass-through pairing, edge dominance) + operand provenance + who-may-call on the include expander; "
+             "roles by type / callee / recursion cycle, calls followed through private helpers and closures with parameters bound to arguments (lib/mirfwd.py)")
 EXPLANATION = (
     "Decides the structural clauses of C20 on the MIR of the include expander in crate `mech`: the cycle test "
     "dominates the active-set insertion and every recursive call and its true-branch returns Err; every path from the "
@@ -16,6 +17,10 @@ EXPLANATION = (
     ' (R4, tightened) the active-set key derives from canonicalize(path) (two spellings of one file must be one key).'
     ' (R8) the token expander examines every line of its chunk: no Ok exit before or inside the line loop, the result is the accumulator the loop fills, and the per-line test is standalone_braced_content.'
     ' (R9) fence typestate: a line that opens a fence sets the fence state unconditionally, the state is cleared only under is_code_fence_close, both fence branches end in `continue`, and nothing else writes the state.'
+    ' Shape independence: the guarded function is the function on a recursion cycle that inserts into its HashSet<PathBuf> parameter (itself or through a helper); the token expander is the function on '
+    'that cycle that calls it back; the membership test is `contains` or an `insert` whose bool result is branched on (either polarity spelling) or a gate helper whose Err edge is the present edge; '
+    'helpers between the two (flush helpers, closures) are looked through with parameters bound to arguments; R8 and R9 are decided on the CFG (cfg:* obligations), their syntactic forms are kept '
+    'for the spelling they recognise and recorded as undecided otherwise.'
 )
 
 HS = r"std::collections::hash::set::HashSet::<T, S, A>::"
@@ -30,7 +35,7 @@ def run(F, rep, tier):
     bodies = F.bodies(crate)
     rep.analysed = {"crate": crate, "bodies": len(bodies)}
     cg = CallGraph(F, [crate])
-    rep.rule("C20-R1", "cycle test (contains on the active set) dominates insert and every recursive call; its true branch returns Err without inserting")
+    rep.rule("C20-R1", "cycle test (contains on the active set, or an insert whose bool result is branched on, or a gate helper doing either) dominates insert and every recursive call; its key-present branch returns Err without inserting")
     rep.rule("C20-R2", "every path from the active-set insertion to an Ok return passes a removal of the same key")
     rep.rule("C20-R3", "token expander is only fed the outside-fence buffer; that buffer is appended to only when no fence is active and the line opens no fence; fenced lines are copied verbatim")
     rep.rule("C20-R4", "include path = parent(canonical path of the including file).join(include text); never the process cwd")
